@@ -998,6 +998,299 @@ theorem C16_tagTypes_decodes (ts : List Tag) (hp : ∀ t ∈ ts, Tag.tryFrom t.n
     simp [tagTypesGo, h1, h2]
 
 
+/-! ## soundness of the decoders that walk the frame: an `ok` result determines the frame's shape -/
+
+/-- the lines of a grouped count reply, as the decoder must have seen them -/
+inductive GroupsOf (tag : Bytes) : Fields → List (Bytes × Count) → Prop where
+  | nil : GroupsOf tag [] []
+  | songsFirst (v x y : Bytes) (n : Nat) (d : Dur) (rest l) :
+      parseU64 x = some n → parseDuration y = some d → GroupsOf tag rest l →
+      GroupsOf tag ((tag, v) :: (K.songs, x) :: (K.playtime, y) :: rest) ((v, { songs := n, playtime := d }) :: l)
+  | playtimeFirst (v x y : Bytes) (n : Nat) (d : Dur) (rest l) :
+      parseU64 x = some n → parseDuration y = some d → GroupsOf tag rest l →
+      GroupsOf tag ((tag, v) :: (K.playtime, y) :: (K.songs, x) :: rest) ((v, { songs := n, playtime := d }) :: l)
+
+theorem gcGo_ok (tag : Bytes) : ∀ (n : Nat) (l : Fields), l.length ≤ n → ∀ out r,
+    gcGo tag .idle l out = .ok r → ∃ l', r = out ++ l' ∧ GroupsOf tag l l' := by
+  have hps : ¬ K.playtime = K.songs := by decide
+  intro n
+  induction n with
+  | zero =>
+    intro l hl out r h
+    have : l = [] := List.eq_nil_of_length_eq_zero (by omega)
+    subst this
+    simp only [gcGo, Outcome.ok.injEq] at h
+    exact ⟨[], by simp [h], .nil⟩
+  | succ n ih =>
+    intro l hl out r h
+    match l, hl, h with
+    | [], _, h =>
+      simp only [gcGo, Outcome.ok.injEq] at h
+      exact ⟨[], by simp [h], .nil⟩
+    | [(k, v)], _, h =>
+      by_cases hk : k = tag <;> simp [gcGo, hk] at h
+    | [(k, v), (a, x)], _, h =>
+      by_cases hk : k = tag
+      · simp only [gcGo, hk, ne_eq, not_true_eq_false, if_false] at h
+        by_cases ha : a = K.songs
+        · cases hp : parseU64 x <;> simp [ha, hp, gcAfter, gcGo] at h
+        · by_cases hb : a = K.playtime
+          · subst hb; cases hp : parseDuration x <;> simp [hps, hp, gcAfter, gcGo] at h
+          · simp [ha, hb] at h
+      · simp [gcGo, hk] at h
+    | (k, v) :: (a, x) :: (b, y) :: rest, hl, h =>
+      have hrest : rest.length ≤ n := by simp only [List.length_cons] at hl; omega
+      by_cases hk : k = tag
+      · subst hk
+        simp only [gcGo, ne_eq, not_true_eq_false, if_false] at h
+        by_cases ha : a = K.songs
+        · subst ha
+          cases hp : parseU64 x with
+          | none => simp [hp] at h
+          | some nn =>
+            simp only [hp, gcAfter, Bool.or_true, if_true, Option.isNone] at h
+            by_cases hb : b = K.songs
+            · simp [gcGo, hb] at h
+            · by_cases hb2 : b = K.playtime
+              · subst hb2
+                cases hq : parseDuration y with
+                | none => simp [gcGo, hb, hq] at h
+                | some d =>
+                  simp only [gcGo, hb, if_false, hq, gcAfter, Option.isNone_some, Bool.or_self,
+                    Bool.false_eq_true, if_true] at h
+                  obtain ⟨l', rfl, hg⟩ := ih rest hrest _ r h
+                  exact ⟨_ :: l', by simp, .songsFirst v x y nn d rest l' hp hq hg⟩
+              · simp [gcGo, hb, hb2] at h
+        · by_cases ha2 : a = K.playtime
+          · subst ha2
+            cases hq : parseDuration x with
+            | none => simp [hps, hq] at h
+            | some d =>
+              simp only [hps, if_false, if_true, hq, gcAfter, Bool.true_or, Option.isNone] at h
+              by_cases hb : b = K.songs
+              · subst hb
+                cases hp : parseU64 y with
+                | none => simp [gcGo, hp] at h
+                | some nn =>
+                  simp only [gcGo, if_true, hp, gcAfter, Option.isNone_some, Bool.or_self,
+                    Bool.false_eq_true, if_false, Option.isNone_none] at h
+                  obtain ⟨l', rfl, hg⟩ := ih rest hrest _ r h
+                  exact ⟨_ :: l', by simp, .playtimeFirst v y x nn d rest l' hp hq hg⟩
+              · by_cases hb2 : b = K.playtime
+                · subst hb2; simp [gcGo, hps] at h
+                · simp [gcGo, hb, hb2] at h
+          · simp [ha, ha2] at h
+      · simp [gcGo, hk] at h
+
+theorem gcGo_of_groups (tag : Bytes) (l : Fields) (l' : List (Bytes × Count)) (h : GroupsOf tag l l') :
+    ∀ out, gcGo tag .idle l out = .ok (out ++ l') := by
+  have hps : ¬ K.playtime = K.songs := by decide
+  induction h with
+  | nil => intro out; simp [gcGo]
+  | songsFirst v x y n d rest l hp hq _ ih =>
+    intro out
+    simp [gcGo, gcAfter, hp, hq, hps, ih]
+  | playtimeFirst v x y n d rest l hp hq _ ih =>
+    intro out
+    simp [gcGo, gcAfter, hp, hq, hps, ih]
+
+/-- **soundness of the grouped count**: a result is produced exactly when the frame is a sequence of
+complete groups (grouping-tag line, then `songs` and `playtime` once each in either order, both
+inside their domains), and then the result is those groups in order — group values are never
+paired with the counters of a neighbouring group -/
+theorem C16_countGrouped_sound (t : Tag) (f : AFrame) (l : List (Bytes × Count)) :
+    decCountGrouped t f = .ok l ↔ GroupsOf t.name f.fields l := by
+  unfold decCountGrouped
+  constructor
+  · intro h
+    obtain ⟨l', rfl, hg⟩ := gcGo_ok t.name _ f.fields (Nat.le_refl _) [] l h
+    simpa using hg
+  · intro h
+    simpa using gcGo_of_groups t.name f.fields l h []
+
+/-- plain list: the values are the values of the frame's lines, in order -/
+theorem C16_list_sound (t : Tag) (gs : List Tag) (f : AFrame) (r : ListResp) (h : decList t gs f = .ok r) :
+    r.values = f.fields.map (·.2) ∧ r.primary = t ∧ r.groupings = gs := by
+  unfold decList at h
+  cases hl : listFields f.fields with
+  | terr => simp [hl] at h
+  | panic => simp [hl] at h
+  | ok fields =>
+    simp only [hl, Outcome.ok.injEq] at h
+    subst h
+    refine ⟨?_, rfl, rfl⟩
+    simp only [ListResp.values]
+    generalize f.fields = l at hl
+    induction l generalizing fields with
+    | nil => simp [listFields] at hl; subst hl; rfl
+    | cons p ps ih =>
+      unfold listFields at hl
+      cases ht : Tag.tryFrom p.1 with
+      | error e => simp [ht] at hl
+      | ok tg =>
+        simp only [ht] at hl
+        cases hr : listFields ps with
+        | terr => simp [hr] at hl
+        | panic => simp [hr] at hl
+        | ok rest =>
+          simp only [hr, Outcome.ok.injEq] at hl
+          subst hl
+          simp [ih rest hr]
+
+theorem channelMessagesGo_ok (l : Fields) (out r : List (Bytes × Bytes)) (h : channelMessagesGo l out = .ok r) :
+    ∃ rows, l = encMessages rows ∧ r = out ++ rows := by
+  induction l, out using channelMessagesGo.induct with
+  | case1 out => simp only [channelMessagesGo, Outcome.ok.injEq] at h; exact ⟨[], rfl, by simp [h]⟩
+  | case2 _ _ => simp [channelMessagesGo] at h
+  | case3 k c k' m rest out hk => simp [channelMessagesGo, hk] at h
+  | case4 k c k' m rest out hk hk' => simp [channelMessagesGo, hk'] at h
+  | case5 k c k' m rest out hk hk' ih =>
+    simp only [ne_eq, Decidable.not_not] at hk hk'
+    simp only [channelMessagesGo, hk, hk', ne_eq, not_true_eq_false, if_false] at h
+    obtain ⟨rows, h1, h2⟩ := ih h
+    exact ⟨(c, m) :: rows, by simp [encMessages, hk, hk', h1], by simp [h2]⟩
+
+/-- **soundness of readmessages**: exactly the alternating channel/message frames decode, to
+exactly their pairs -/
+theorem C16_messages_sound (f : AFrame) (rows : List (Bytes × Bytes)) :
+    decChannelMessages f = .ok rows ↔ f.fields = encMessages rows := by
+  constructor
+  · intro h
+    obtain ⟨rows', h1, h2⟩ := channelMessagesGo_ok f.fields [] rows h
+    simp only [List.nil_append] at h2
+    rw [h2, h1]
+  · intro h
+    have := C16_messages_decodes rows f.binary
+    rw [← h] at this
+    exact this
+
+theorem C16_channels_sound (f : AFrame) (names : List Bytes) :
+    decListChannels f = .ok names ↔ f.fields = encChannels names := by
+  constructor
+  · intro h
+    unfold decListChannels at h
+    generalize f.fields = l at h
+    induction l generalizing names with
+    | nil => simp [listChannelsGo] at h; subst h; rfl
+    | cons p ps ih =>
+      unfold listChannelsGo at h
+      by_cases hk : p.1 = str "channel"
+      · simp only [hk, ne_eq, not_true_eq_false, if_false] at h
+        cases hr : listChannelsGo ps with
+        | terr => simp [hr] at h
+        | panic => simp [hr] at h
+        | ok rest =>
+          simp only [hr, Outcome.ok.injEq] at h
+          subst h
+          simp only [encChannels, List.map_cons, List.cons.injEq]
+          exact ⟨by rw [← hk], ih rest hr⟩
+      · simp [hk] at h
+  · intro h
+    have := C16_channels_decodes names f.binary
+    rw [← h] at this
+    exact this
+
+theorem playlistsGo_ok : ∀ (n : Nat) (l : Fields), l.length ≤ n → ∀ (out r : List Playlist),
+    playlistsGo none l out = .ok r →
+    ∃ rows, (l = encPlaylists rows ∨ ∃ nm, l = encPlaylists rows ++ [(str "playlist", nm)]) ∧
+      r = out ++ viewPlaylists rows := by
+  intro n
+  induction n with
+  | zero =>
+    intro l hl out r h
+    have : l = [] := List.eq_nil_of_length_eq_zero (by omega)
+    subst this
+    simp only [playlistsGo, Outcome.ok.injEq] at h
+    exact ⟨[], .inl rfl, by simp [h, viewPlaylists]⟩
+  | succ n ih =>
+    intro l hl out r h
+    match l, hl, h with
+    | [], _, h =>
+      simp only [playlistsGo, Outcome.ok.injEq] at h
+      exact ⟨[], .inl rfl, by simp [h, viewPlaylists]⟩
+    | [(k, v)], _, h =>
+      by_cases hk : k = str "playlist"
+      · subst hk
+        simp only [playlistsGo, if_true, Outcome.ok.injEq] at h
+        exact ⟨[], .inr ⟨v, rfl⟩, by simp [h, viewPlaylists]⟩
+      · simp [playlistsGo, hk] at h
+    | (k, v) :: (k', m) :: rest, hl, h =>
+      have hrest : rest.length ≤ n := by simp only [List.length_cons] at hl; omega
+      by_cases hk : k = str "playlist"
+      · subst hk
+        by_cases hk' : k' = str "Last-Modified"
+        · subst hk'
+          simp only [playlistsGo, if_true] at h
+          obtain ⟨rows, hshape, hr⟩ := ih rest hrest _ r h
+          refine ⟨(v, m) :: rows, ?_, by simp [hr, viewPlaylists]⟩
+          rcases hshape with h1 | ⟨nm, h1⟩
+          · exact .inl (by simp [encPlaylists, h1])
+          · exact .inr ⟨nm, by simp [encPlaylists, h1]⟩
+        · simp [playlistsGo, hk'] at h
+      · simp [playlistsGo, hk] at h
+
+/-- **soundness of listplaylists**: a result is produced exactly for `playlist`/`Last-Modified`
+pairs — optionally followed by ONE trailing `playlist` line, which is dropped (MPD always sends the
+pair; stated here so that the asymmetry is visible: the same omission in the middle is an error,
+`C16_playlists_malformed`) — and the result is those pairs in order -/
+theorem C16_playlists_sound (f : AFrame) (r : List Playlist) (h : decPlaylists f = .ok r) :
+    ∃ rows, (f.fields = encPlaylists rows ∨ ∃ nm, f.fields = encPlaylists rows ++ [(str "playlist", nm)]) ∧
+      r = viewPlaylists rows := by
+  obtain ⟨rows, h1, h2⟩ := playlistsGo_ok _ f.fields (Nat.le_refl _) [] r h
+  exact ⟨rows, h1, by simpa using h2⟩
+
+/-- tag types: an `ok` result means every line is `tagtype: NAME` with NAME a tag, in order -/
+theorem C16_tagTypes_sound (f : AFrame) (ts : List Tag) (h : decTagTypes f = .ok ts) :
+    f.fields.map (·.1) = ts.map (fun _ => str "tagtype") ∧
+    (f.fields.map (fun p => Tag.tryFrom p.2)) = ts.map Except.ok := by
+  unfold decTagTypes at h
+  generalize f.fields = l at h
+  induction l generalizing ts with
+  | nil => simp [tagTypesGo] at h; subst h; simp
+  | cons p ps ih =>
+    unfold tagTypesGo at h
+    by_cases hk : p.1 = str "tagtype"
+    · simp only [hk, ne_eq, not_true_eq_false, if_false] at h
+      cases ht : Tag.tryFrom p.2 with
+      | error e => simp [ht] at h
+      | ok t =>
+        simp only [ht] at h
+        cases hr : tagTypesGo ps with
+        | terr => simp [hr] at h
+        | panic => simp [hr] at h
+        | ok rest =>
+          simp only [hr, Outcome.ok.injEq] at h
+          subst h
+          obtain ⟨h1, h2⟩ := ih rest hr
+          simp [hk, ht, h1, h2]
+    · simp [hk] at h
+
+/-- sticker list: an `ok` result means every value has the shape `NAME=VALUE` (split at the first
+`=`), and the map is those pairs inserted in order (a later duplicate name replaces the earlier) -/
+theorem C16_stickerList_sound (f : AFrame) (m : SMap) (h : decStickerList f = .ok m) :
+    ∃ rows : List (Bytes × Bytes), f.fields.map (·.2) = rows.map (fun p => p.1 ++ 61 :: p.2) ∧
+      (∀ p ∈ rows, stickerName p.1 = true) ∧ m = rows.foldl (fun acc p => SMap.insert p.1 p.2 acc) [] := by
+  unfold decStickerList at h
+  generalize f.fields = l at h
+  generalize ([] : SMap) = acc at h ⊢
+  induction l generalizing acc with
+  | nil => simp only [stickerListGo, Outcome.ok.injEq] at h; exact ⟨[], rfl, by simp, by simp [h]⟩
+  | cons p ps ih =>
+    unfold stickerListGo at h
+    cases hs : parseStickerValue p.2 with
+    | none => simp [hs] at h
+    | some q =>
+      obtain ⟨a, b⟩ := q
+      simp only [hs] at h
+      obtain ⟨rows, h1, h2, h3⟩ := ih _ h
+      obtain ⟨e1, e2⟩ := splitOnce_some 61 p.2 a b hs
+      refine ⟨(a, b) :: rows, by simp [h1, e1], ?_, by simp [h3]⟩
+      intro x hx
+      simp only [List.mem_cons] at hx
+      rcases hx with rfl | hx
+      · exact (stickerName_iff _).mpr e2
+      · exact h2 x hx
+
 /-! ## non-vacuity: the hypotheses are satisfiable on non-trivial replies -/
 
 def exStatus : StatusRec :=
